@@ -40,6 +40,9 @@ func c19Run(raw []byte) (*Line, error) {
 			adj[i][k] = v
 		}
 	}
+	if len(c.Roots) == 0 {
+		return nil, fmt.Errorf("no root: nothing would be observed")
+	}
 	for _, r := range c.Roots {
 		if r < 0 || r >= n {
 			return nil, fmt.Errorf("root out of range")
@@ -413,6 +416,35 @@ func c19Random(rng *rand.Rand, maxN int) c19Case {
 	return c19Case{G: g, Roots: roots, Nil: rng.Intn(2) == 0}
 }
 
+// c19Ladder: a two-way chain 1..m that the root 0 enters at both ends.  Every chain node is
+// dominated by the root only, but the reverse-post-order sweep of Cooper-Harvey-Kennedy moves
+// that fact one chain node per sweep: IDom needs m sweeps (measured: m = 3..39 -> m sweeps),
+// so a bound on the number of sweeps, or any shortcut that settles nodes early, shows here.
+// order bit 0: which end the root enters first; bit 1: adjacency order of the chain nodes.
+func c19Ladder(m, order int) [][]int {
+	g := c19Empty(m + 1)
+	if order&1 == 0 {
+		g[0] = []int{1, m}
+	} else {
+		g[0] = []int{m, 1}
+	}
+	for i := 1; i <= m; i++ {
+		var fw, bw []int
+		if i < m {
+			fw = []int{i + 1}
+		}
+		if i > 1 {
+			bw = []int{i - 1}
+		}
+		if order&2 == 0 {
+			g[i] = append(fw, bw...)
+		} else {
+			g[i] = append(bw, fw...)
+		}
+	}
+	return g
+}
+
 func c19Gen(tier string, rng *rand.Rand, emit func(interface{})) {
 	thorough := tier == "thorough"
 	// (a) exhaustive: every digraph (self-loops included) on 1..4 nodes, every root
@@ -455,6 +487,22 @@ func c19Gen(tier string, rng *rand.Rand, emit func(interface{})) {
 	}
 	for it := 0; it < nRand; it++ {
 		emit(c19Random(rng, 40))
+	}
+	// (e) ladders: graphs that need as many sweeps as they have nodes (2..39 chain nodes, i.e. up to
+	// the 40 nodes of the property; plus longer ones), plain and renumbered, second root inside the chain
+	for m := 2; m <= 39; m++ {
+		g := c19Ladder(m, m)
+		emit(c19Case{G: g, Roots: []int{0}, Nil: m%2 == 0})
+		h, rs := c19Shuffle(rng, c19Ladder(m, rng.Intn(4)), []int{0, 1 + rng.Intn(m)})
+		emit(c19Case{G: h, Roots: rs, Nil: m%2 == 1})
+	}
+	long := []int{60, 100}
+	if thorough {
+		long = []int{60, 100, 150, 250}
+	}
+	for _, m := range long {
+		h, rs := c19Shuffle(rng, c19Ladder(m, rng.Intn(4)), []int{0})
+		emit(c19Case{G: h, Roots: rs})
 	}
 	// (d) node ids across the 1024 boundary of the mark set: a small reachable region whose
 	// ids straddle 1023/1024 inside a graph of 1030 (thorough also 2050) nodes
